@@ -400,7 +400,7 @@ def oracle(c):
     o = d['opts']
     if d['kind'] == 'custom-arg':
         from pylatexenc.latex2text import LatexNodes2Text
-        wdb, tdb = H.custom_dbs()
+        wdb, tdb = H.custom_dbs(discards=False)
         try:
             got = LatexNodes2Text(latex_context=tdb, **o).latex_to_text(d['s'], latex_context=wdb, tolerant_parsing=False)
         except Exception as e:
